@@ -63,13 +63,14 @@ static int g_user_fd[2];
 static int g_parent_end_pipe[4];       /* pipe objects of the parent's in/out/err/exit ends */
 
 /* "not started": what a later start, destroy or any other call looks at. (The stored stop
- * policy, deadline and nonblocking flag are only read once the handle is running, so they are
+ * policy and nonblocking flag are always overwritten by a successful start, so they are
  * deliberately not part of this predicate.) */
 static bool fresh(const reproc_t *p)
 {
   return p->handle == PROCESS_INVALID && p->pipe.in == PIPE_INVALID && p->pipe.out == PIPE_INVALID &&
          p->pipe.err == PIPE_INVALID && p->pipe.exit == PIPE_INVALID && p->status == STATUS_NOT_STARTED &&
-         p->child.out == PIPE_INVALID && p->child.err == PIPE_INVALID;
+         p->child.out == PIPE_INVALID && p->child.err == PIPE_INVALID &&
+         p->deadline == REPROC_INFINITE; /* a later start only stores a deadline when one is given */
 }
 
 static bool streq(const char *a, const char *b)
@@ -148,6 +149,17 @@ static void child_state_checks(bool at_exec)
       survivors++;
       exit_fd = i;
     }
+  }
+  if (!at_exec) {
+    /* fork mode: besides 0,1,2 the child may keep the caller's own descriptors, but none of the
+     * descriptors the library created (pipe ends of this or of sibling children) */
+    bool lib_left = false;
+    for (int i = 3; i < VP_NFD; i++) {
+      lib_left = lib_left || (vp_fd_open[i] && vp_fd_own[i] == VP_OWN_LIB);
+    }
+    VP_ASSERT(C11, !lib_left, "the forked child keeps a descriptor the library created");
+    VP_ASSERT(C02, !lib_left, "the forked child keeps a library pipe end: closing stdin in the parent never gives it end-of-file");
+    VP_ASSERT(C20, !lib_left, "the forked child keeps pipe ends of other children");
   }
   if (at_exec) {
     VP_ASSERT(C11, survivors == 1,
@@ -305,7 +317,7 @@ void harness(void)
   vp_sigmask = (m_hi << 31) ^ m_lo;
   g_mask0 = vp_sigmask;
   vp_sigmask0 = vp_sigmask;
-  vp_sigmask0_valid = true;
+  vp_sigmask0_valid = VP_ON(C12) != 0; /* C12 excludes a failing restoring call; the others do not */
 
   /* ---- options ---- */
   reproc_options o = { 0 };
@@ -419,6 +431,7 @@ void harness(void)
     VP_ASSERT(C05, nalive == 0, "failed start leaves a child process (running or zombie) behind");
     VP_ASSERT(C04, fresh(p), "failed start leaves the handle in a state other than not-started");
     VP_ASSERT(C14, fresh(p), "failed start leaves the handle in a state other than not-started");
+    VP_ASSERT(C10, fresh(p), "failed start leaves stale pipe ends (or a deadline) that a later start would keep");
     VP_ASSERT(C05, vp_table_equals(&g_snap), "failed start leaks or loses a descriptor");
     VP_ASSERT(C04, vp_table_equals(&g_snap), "failed start leaks or loses a descriptor");
     VP_ASSERT(C05, vp_live_allocs == allocs0, "failed start leaks memory");
